@@ -307,6 +307,19 @@ pub fn gen_cases(seed: u64, n: usize, thorough: bool) -> Vec<String> {
             out.push(line(0, &Ty::S(vec![a.clone(), b.clone()])));
         }
     }
+    // sizes around 2^32: the checker computes in 32 bits and must answer "unknown size", never wrap or abort
+    for (len, t) in [(1073741823u32, Ty::Sc("Float32")), (1073741824, Ty::Sc("Float32")), (4294967295, Ty::Sc("Float16")), (2147483648, Ty::Sc("Float16")),
+                     (268435456, Ty::V("Float32", 4)), (268435455, Ty::V("Float32", 4)), (357913941, Ty::V("Float32", 3)), (357913942, Ty::V("Float32", 3)), (4294967295, Ty::Sc("Float64"))] {
+        let big = Ty::A(len, Box::new(t.clone()));
+        out.push(line(0, &Ty::S(vec![big.clone()])));
+        out.push(line(0, &Ty::S(vec![Ty::Sc("Float32"), big.clone()])));
+        out.push(line(0, &Ty::S(vec![big.clone(), Ty::Sc("Float64")])));
+        out.push(line(0, &Ty::S(vec![big.clone(), big.clone()])));
+        out.push(line(0, &Ty::S(vec![Ty::A(2, Box::new(Ty::S(vec![big.clone()])))])));
+    }
+    out.push(line(0, &Ty::S(vec![Ty::A(65536, Box::new(Ty::A(65536, Box::new(Ty::Sc("Float16")))))])));
+    out.push(line(0, &Ty::S(vec![Ty::A(65536, Box::new(Ty::A(32768, Box::new(Ty::Sc("Float16")))))])));
+    out.push(line(0, &Ty::S(vec![Ty::A(65535, Box::new(Ty::A(65537, Box::new(Ty::Sc("Float32")))))])));
     // triples over the vector/scalar leaves plus length-2/3 arrays of the odd-sized ones
     let mut small: Vec<Ty> = base.clone();
     for t in [Ty::V("Float16", 3), Ty::V("Float32", 3), Ty::V("Float16", 2), Ty::Sc("Float16"), Ty::V("Float64", 3)] {
